@@ -9407,26 +9407,35 @@ func (c *Ctx) ruleEncodedBytesReadOnly(rule string, pkgs ...string) {
 	p, r := c.P, c.R
 	n, bad := 0, 0
 	for _, f := range p.FuncsIn(pkgs...) {
-		if f.Parent() != nil || len(callsTo(f, func(nm string, cc *ssa.CallCommon) bool { return nm == "(*eventlogger.Event).FormattedAs" })) == 0 {
+		if f.Parent() != nil {
 			continue
 		}
+		// the protected values of f: what it reads from a buffer with Bytes(), and what it stores with FormattedAs
+		protected := map[ssa.Value]bool{}
 		for _, ci := range callsTo(f, func(nm string, cc *ssa.CallCommon) bool { return nm == "(*bytes.Buffer).Bytes" }) {
-			val, ok := ci.(*ssa.Call)
-			if !ok {
-				continue
+			if val, ok := ci.(*ssa.Call); ok {
+				protected[val] = true
 			}
-			n++
-			c.writesInPlace(f, true, func(in ssa.Instruction, target ssa.Value, _ bool) {
-				if keyRoot(target) != ssa.Value(val) {
-					return
-				}
-				bad++
-				r.Check(false, rule, p.ShortFn(f)+":encoded-bytes-readonly", p.InstrPos(in), "", "the bytes of the buffer the encoder wrote are written in place (an element store, a copy into them, an append onto a re-slice — here or in a helper they are handed to) before or while they are stored with FormattedAs: the stored document is no longer what the encoder produced")
-			})
 		}
+		for _, ci := range callsTo(f, func(nm string, cc *ssa.CallCommon) bool { return nm == "(*eventlogger.Event).FormattedAs" }) {
+			if args := ci.Common().Args; len(args) == 3 {
+				protected[keyRoot(args[2])] = true
+			}
+		}
+		if len(protected) == 0 {
+			continue
+		}
+		n += len(protected)
+		c.writesInPlace(f, true, func(in ssa.Instruction, target ssa.Value, _ bool) {
+			if !protected[keyRoot(target)] {
+				return
+			}
+			bad++
+			r.Check(false, rule, p.ShortFn(f)+":encoded-bytes-readonly", p.InstrPos(in), "", "the bytes of the buffer the encoder wrote are written in place (an element store, a copy into them, an append onto a re-slice — here or in a helper they are handed to) before or while they are stored with FormattedAs: the stored document is no longer what the encoder produced")
+		})
 	}
 	if bad == 0 {
-		r.Check(n >= 2, rule, "encoded-bytes-readonly", "", fmt.Sprintf("%d reads of the encoder's buffer in formatting functions, none written through", n), fmt.Sprintf("only %d buf.Bytes() reads found in functions that call FormattedAs (>= 2 confirmed by hand)", n))
+		r.Check(n >= 1, rule, "encoded-bytes-readonly", "", fmt.Sprintf("%d encoded / stored byte values in formatting functions, none written through", n), "no read of an encoder's buffer and no FormattedAs call found in the package")
 	}
 }
 
@@ -9459,7 +9468,31 @@ func (c *Ctx) ruleRegistryDeref(rule string) {
 			for _, ref := range nonDebugRefs(lk) {
 				switch ref.(type) {
 				case *ssa.FieldAddr, *ssa.Field:
-					deref = true
+					// ... unless a nil test of the entry guards the dereference
+					guarded := false
+					for _, t := range nonDebugRefs(lk) {
+						bo, isBo := t.(*ssa.BinOp)
+						if !isBo || !(bo.Op == token.NEQ || bo.Op == token.EQL) || !(isNilConst(bo.X) || isNilConst(bo.Y)) {
+							continue
+						}
+						for _, u := range nonDebugRefs(bo) {
+							iff, isIf := u.(*ssa.If)
+							if !isIf {
+								continue
+							}
+							b := iff.Block()
+							nonNil := b.Succs[0]
+							if bo.Op == token.EQL {
+								nonNil = b.Succs[1]
+							}
+							if edgeDominates(b, nonNil, ref.Block()) {
+								guarded = true
+							}
+						}
+					}
+					if !guarded {
+						deref = true
+					}
 				}
 			}
 			r.Check(!deref, rule, p.ShortFn(f)+":panic-site:registry-deref", p.InstrPos(lk), "the plain look-up is not dereferenced", "an entry of Broker."+t.Name+" is looked up without the ok flag and dereferenced: an id that a concurrent (or earlier) removal took out of the map gives nil — a nil dereference inside a Broker call")
@@ -9556,6 +9589,24 @@ func (c *Ctx) ruleGraphOfType(rule string) {
 					case *ssa.Lookup:
 						t := p.NewTerms(nil).Of(x.X)
 						return t.Op == "Field" && t.Name == "graphs"
+					case *ssa.Parameter:
+						// a helper that is handed the graph: every caller looked it up
+						idx := -1
+						for i, prm := range f.Params {
+							if prm == x {
+								idx = i
+							}
+						}
+						sites := 0
+						for _, g2 := range p.FuncsIn(PkgRoot) {
+							for _, cs := range callsTo(g2, func(nm string, cc *ssa.CallCommon) bool { return cc.StaticCallee() == f }) {
+								sites++
+								if idx < 0 || idx >= len(cs.Common().Args) || !fromGraphs(cs.Common().Args[idx]) {
+									return false
+								}
+							}
+						}
+						return sites > 0
 					case *ssa.Alloc:
 						// g = &graph{} stored into b.graphs right there (get-or-create)
 						return typeShort(x.Type()) == "eventlogger.graph"
